@@ -19,11 +19,24 @@ import (
 //   read <h> <idx>      -> v
 //   release <h>         -> -
 // Handles are the order of `get`s within the program.
+type regPool interface {
+	Get(sz int) (int, int, bool)
+	Write(id, idx int, n int64)
+	Read(id, idx int) int64
+	Release(id int)
+}
+
 func poolMode(args []string) {
 	n, _ := strconv.Atoi(args[0])
 	rng := hlib.NewRng(hlib.Seed())
 	for prog := 0; prog < n; prog++ {
-		p := rt.VerifNewValuePool(10, 10)
+		// the value pool and the cell pool are two copies of the same algorithm: alternate
+		var p regPool
+		if prog%2 == 0 {
+			p = rt.VerifNewValuePool(10, 10)
+		} else {
+			p = rt.VerifNewCellPool(10, 10)
+		}
 		hlib.Emit("new", "10", "10", "=", "-")
 		type h struct {
 			id, sz int
